@@ -128,20 +128,22 @@ def underscoreOK (s0 : Bytes) : Bool :=
   | 48 :: c :: r => if isBasePrefix c then usLoop (lower c = 120) r 1 else usLoop false s 0
   | _ => usLoop false s 0
 
+/-- base selection of `ParseUint`: (base, digits to scan, base0) -/
+def uintCfg (s : Bytes) (base : Nat) : Nat × Bytes × Bool :=
+  if base ≠ 0 then (base, s, false) else
+  match s with
+  | 48 :: c :: _ :: _ =>
+    if lower c = 98 then (2, s.drop 2, true)
+    else if lower c = 111 then (8, s.drop 2, true)
+    else if lower c = 120 then (16, s.drop 2, true)
+    else (8, s.drop 1, true)
+  | 48 :: _ => (8, s.drop 1, true)
+  | _ => (10, s, true)
+
 /-- `strconv.ParseUint(s, base, 64)` for base 10 and base 0 -/
 def parseUint (s : Bytes) (base : Nat) : Except NumErr Nat :=
   if s = [] then .error .syntax else
-  let cfg : Nat × Bytes × Bool :=
-    if base ≠ 0 then (base, s, false) else
-    match s with
-    | 48 :: c :: _ :: _ =>
-      if lower c = 98 then (2, s.drop 2, true)
-      else if lower c = 111 then (8, s.drop 2, true)
-      else if lower c = 120 then (16, s.drop 2, true)
-      else (8, s.drop 1, true)
-    | 48 :: _ => (8, s.drop 1, true)
-    | _ => (10, s, true)
-  match uintLoop cfg.1 cfg.2.2 cfg.2.1 0 false with
+  match uintLoop (uintCfg s base).1 (uintCfg s base).2.2 (uintCfg s base).2.1 0 false with
   | .error e => .error e
   | .ok (n, u) => if u = true ∧ underscoreOK s = false then .error .syntax else .ok n
 
